@@ -3,13 +3,15 @@ import json
 
 import gens as G
 import h4seq_util as U
+import h2bars_util as U2
+import barmut_util as BM
 import histories as H
 import pyimpl as P
 from oracle_util import *  # noqa
 from protocol import from_real
 
 ID = "C16"
-LEAN_MODULE = ["SCoda.Props.C16", "SCoda.Props.C16b", "SCoda.Props.Purity", "SCoda.Props.C16c", "SCoda.Props.C16cW", "SCoda.Props.WrapTie", "SCoda.Props.ElemTie", "SCoda.Props.StaticLink", "SCoda.Props.HeapTie", "SCoda.Props.HeapTie2", "SCoda.Props.HeapTieB"]
+LEAN_MODULE = ["SCoda.Props.C16", "SCoda.Props.C16b", "SCoda.Props.Purity", "SCoda.Props.C16c", "SCoda.Props.C16cW", "SCoda.Props.WrapTie", "SCoda.Props.ElemTie", "SCoda.Props.StaticLink", "SCoda.Props.HeapTie", "SCoda.Props.HeapTie2", "SCoda.Props.HeapTieB", "SCoda.Props.ElemTieCh"]
 EXTRA_TARGETS = ["heapdriver"]
 CLAUSES = [
     ("a message-wise copy holds the same message values as its original (equals: C17.refl)", ["SCoda.C16.copy_derive", "SCoda.C16.copyAll_spec"]),
@@ -29,7 +31,9 @@ CLAUSES = [
      "allocation, 46 concrete operations (every derivation route, both conversions, in-place mutators, rebuilders, the sharers concatenate / merge / to_sequence, equals and "
      "the pairing helpers that sort in place, scale on both sides of 1, edits through the iterators), every value-dependent decision taken from an arbitrary oracle. "
      "PROVED from the operation definitions, for every oracle: each derivation route returns only cells allocated by the call and writes nothing that existed "
-     "(split: writes only what the source reaches — it may regenerate the source's stale relative view); every operation writes only what its receiver and "
+     "(split, and — since the second repair of D37, whose Bar.copy READS self.sequence.rel — the copies of bars, tracks and compositions: the result is made of "
+     "cells the call allocated, none of them reachable from the source afterwards, and the source is written only in cells it reaches: a stale relative view of "
+     "the source / of a source bar's sequence is regenerated; hypothesis: the source has no dangling identity); every operation writes only what its receiver and "
      "object-valued arguments reach (frame); for ANY history of those operations on one side, every cell reachable from the other side is unchanged, hence both views' "
      "message values and both flags of every sequence there, and the two sides stay disjoint — in both directions, and step by step for any interleaving; the copy's "
      "snapshot equals the original's; the wrapper invariant of the untouched side holds after iff it held before. Negative control: with the UNREPAIRED split (pieces "
@@ -42,17 +46,21 @@ CLAUSES = [
       "SCoda.C16cW.independent_views_agree"]),
     ("TIE BY TRANSLATION (value level): Sequence.copy / split and Bar / Track / Composition.copy as re-translated from the source on every run; Sequence.copy copies exactly "
      "the fresh views, Bar.copy is a new bar constructed from a copy of the sequence, Track.copy copies every bar and constructs a new track, Composition.copy copies every track "
-     "(a shallow copy changes the regenerated function and breaks the theorem); Bar.copy hands the bar's default_channel on to the new bar: whenever it "
-     "succeeds the copy carries the same default_channel and its leading time-signature event is on that channel (finding D37, repaired: a copy "
-     "that falls back to the constructor's default channel changes the regenerated function and breaks barCopy_toBar_ch / barCopy_default_channel)",
-     ["SCoda.WrapTie.copy_eq", "SCoda.WrapTie.split_eq", "SCoda.ElemTie.barCopy_toBar", "SCoda.ElemTie.barCopy_constructed", "SCoda.ElemTie.barCopy_toBar_ch",
-      "SCoda.ElemTie.barCopy_constructed_ch", "SCoda.ElemTie.barCopy_default_channel", "SCoda.ElemTie.trackCopy_eq",
+     "(a shallow copy changes the regenerated function and breaks the theorem); Bar.copy reads the bar's relative view (`rel` property) and constructs the copy on the channel "
+     "of the bar's own first time-signature message AS IT IS NOW (barCopy_eq, no hypothesis; 0 if the bar has none): whenever it succeeds the copy's leading "
+     "time-signature event is on that channel (barCopy_sig_channel), and for every bar whose current relative view is in bar shape — constructed with any "
+     "default_channel, then changed by set_channel / transpose as long as notes still pair up — the copy is an equal bar (ElemTieCh.barCopy_equal_any, "
+     "barCopy_after_setChannel; findings D37 and, audit round 4 D1, its first repair: a copy that passes channel 0 or a channel stored at construction changes "
+     "the regenerated function and breaks barCopy_eq)",
+     ["SCoda.WrapTie.copy_eq", "SCoda.WrapTie.split_eq", "SCoda.ElemTie.barCopy_toBar", "SCoda.ElemTie.barCopy_constructed", "SCoda.ElemTie.barCopy_eq",
+      "SCoda.ElemTie.barCopy_toBar_own", "SCoda.ElemTie.barCopy_constructed_own", "SCoda.ElemTie.barCopy_sig_channel", "SCoda.ElemTie.barCopy_default_channel",
+      "SCoda.ElemTieCh.barCopy_equal_any", "SCoda.ElemTieCh.barCopy_after_setChannel", "SCoda.ElemTie.trackCopy_eq",
       "SCoda.ElemTie.compCopy_eq", "SCoda.ElemTie.trackInit_eq", "SCoda.ElemTie.compInit_eq", "SCoda.ElemTie.compToSequences_eq", "SCoda.ElemTie.trackToSequence_eq",
       "SCoda.ElemTie.compFromSequences_eq", "SCoda.ElemTie.elem_defaults_pinned"]),
     ('the link through which the translated sequences_split_bars reads the signature and key queues (AbsoluteSequence.get_message_times_of_type, a hand-written definition in Model/StaticLib.lean) is what the TRANSLATED method computes on a freshly built list, read back through the heap (audit round 3 R1: an edit of that method now breaks this obligation)',
      ["SCoda.StaticLink.timesOfType_link", "SCoda.AbsTie2.getMessageTimesOfType_eq", "SCoda.AbsTie2.timesOfType_init"]),
-    ('TIE BY TRANSLATION (identity level): Message.copy, AbstractSequence.copy, Sequence.__init__/copy/split, Bar.__init__/copy, Track.__init__/copy and Composition.copy, re-translated from the source on every run with respect to object identity (allocation, stores, returned references; Gen/HeapFns.lean over the cell heap of Model/HeapOps.lean; value decisions from the oracle exactly as HeapOps abstracts them — a scalar attribute the identity model does not carry, Bar.default_channel, is checked to be assigned scalars only and the one message built from it takes its value from the oracle; view-level normalise_relative / pad / conversions / RelativeSequence.split are links), are EQUAL (same heap, same identities) to the HeapOps steps msgCopy / copyView / seqCopy / split / barInit / barCopy / trkInit / trkCopy / cmpCopy, on heaps without dangling identities whose non-stale views exist and whose messages have a channel; hence the freshness facts hold of the translated routes. sequences_split_bars (its loop skeleton; its constituent steps are the tied functions) remains tied by the sampled heap-history correspondence',
-     ["SCoda.HeapTie.messageCopy_eq", "SCoda.HeapTie.abstractSequenceCopy_eq", "SCoda.HeapTie.sequenceCopy_eq", "SCoda.HeapTie.sequenceSplit_eq", "SCoda.HeapTie.barInit_eq", "SCoda.HeapTie.barCopy_eq", "SCoda.HeapTie.trackInit_eq", "SCoda.HeapTie.trackCopy_eq", "SCoda.HeapTie.compositionCopy_eq", "SCoda.HeapTie.messageCopy_fresh", "SCoda.HeapTie.sequenceCopy_fresh", "SCoda.HeapTie.sequenceSplit_fresh", "SCoda.HeapTie.barCopy_fresh", "SCoda.HeapTie.trackCopy_fresh", "SCoda.HeapTie.compositionCopy_fresh", "SCoda.HeapTie.messageCopy_eq_statement_false"]),
+    ('TIE BY TRANSLATION (identity level): Message.copy, AbstractSequence.copy, Sequence.__init__/copy/split, Bar.__init__/copy, Track.__init__/copy and Composition.copy, re-translated from the source on every run with respect to object identity (allocation, stores, returned references; Gen/HeapFns.lean over the cell heap of Model/HeapOps.lean; value decisions from the oracle exactly as HeapOps abstracts them — the constructor parameter default_channel of Bar is value level and the one message built from it takes its value from the oracle; the read of self.sequence.rel in Bar.copy is a call of the translated property on the wrapper of the SOURCE (a source that stores the channel in an attribute of the bar, commit f9ef398, is refused); view-level normalise_relative / pad / conversions / RelativeSequence.split are links), are EQUAL (same heap, same identities) to the HeapOps steps msgCopy / copyView / seqCopy / split / barInit / barCopy / trkInit / trkCopy / cmpCopy, on heaps without dangling identities whose non-stale views exist and whose messages have a channel — for Bar / Track / Composition copies: bars whose RELATIVE VIEW IS NOT STALE (the state the constructor, set_channel and a transpose without octave wrap leave; the read of self.sequence.rel is then a plain read) — hence the freshness facts (no existing cell written) hold of the translated routes; for a source bar with a stale relative view the model step HeapOps.barCopy regenerates it first (readRel), with the allowance of split (barCopy_model_fresh = C16c.derive_fresh_barCopy), tied by the sampled heap-history correspondence. sequences_split_bars (its loop skeleton; its constituent steps are the tied functions) remains tied by the sampled heap-history correspondence',
+     ["SCoda.HeapTie.messageCopy_eq", "SCoda.HeapTie.abstractSequenceCopy_eq", "SCoda.HeapTie.sequenceCopy_eq", "SCoda.HeapTie.sequenceSplit_eq", "SCoda.HeapTie.barInit_eq", "SCoda.HeapTie.barCopy_eq", "SCoda.HeapTie.trackInit_eq", "SCoda.HeapTie.trackCopy_eq", "SCoda.HeapTie.compositionCopy_eq", "SCoda.HeapTie.messageCopy_fresh", "SCoda.HeapTie.sequenceCopy_fresh", "SCoda.HeapTie.sequenceSplit_fresh", "SCoda.HeapTie.barCopy_fresh", "SCoda.HeapTie.barCopy_model_fresh", "SCoda.HeapTie.trackCopy_fresh", "SCoda.HeapTie.compositionCopy_fresh", "SCoda.HeapTie.messageCopy_eq_statement_false"]),
     ("TIE BY TRANSLATION (identity level, part 2): RelativeSequence.split ITSELF is re-translated from the source on every run with respect to object identity AND value (Gen/HeapFns2.lean: every Message(...) / RelativeSequence() allocates a cell, working_memory = copy.copy(self._messages) is a fresh list of the same references, add_message / append store references, integer decisions are translated exactly, no oracle) and proved, for every heap, receiver and list of capacities: it returns normally (the guard before pop(0) and the loop bound len(working_memory)+1 are sufficient); it WRITES NO CELL THAT EXISTED when it was called (the receiver's list object and messages included: the receiver is not consumed, a cut wait is replaced by two new waits and not shortened in place); every returned piece is a view allocated by the call holding message objects of the receiver's list and messages allocated by the call only (the pieces DO share messages with the receiver: the all-fresh statement is refuted by a kernel-checked example, replayed on the real code; the repair of D13 is the seq.copy() in Sequence.split); hence the region statement HeapL.splitView_spec that C16c uses of the link holds of the translated method (simulation, not equality: the code allocates view objects it discards and interleaves the allocation of the cut messages of two pieces). Sequence.split with NO link (sequenceSplit2) is the translated RelativeSequence.split followed by HeapOps.wrapCopies: every cell reachable from a returned Sequence was allocated by the call and is not reachable from the source, and every cell that existed keeps its content except possibly the source's own wrapper cell (a stale relative view is regenerated). sequences_split_bars: HeapOps.sbBar asks the oracle for the bar's scalars BEFORE quantise_note_lengths, the code evaluates the arguments of Bar(...) AFTER it; the two are proved equal on the heaps of the call site (the piece's absolute view stale or missing, or no relative view: every sequence_to_add is a wrapper the method has just built), refuted by a kernel-checked heap on which a live absolute view shares a message with the relative view, and the freshness calculus holds of either order; the loop skeleton of sequences_split_bars is still tied by the sampled heap-history correspondence only",
      ["SCoda.HeapTie2.relativeSequenceSplit_ok", "SCoda.HeapTie2.relativeSequenceSplit_frame", "SCoda.HeapTie2.relativeSequenceSplit_receiver", "SCoda.HeapTie2.relativeSequenceSplit_pieces", "SCoda.HeapTie2.pieces_allFresh_statement_false", "SCoda.HeapTie2.relativeSequenceSplit_spec", "SCoda.HeapTie2.sequenceSplit2_eq_wrapCopies", "SCoda.HeapTie2.sequenceSplit2_fresh", "SCoda.HeapTieB.sbBar_order_agree", "SCoda.HeapTieB.sbBar_order_statement_false", "SCoda.HeapTieB.sbBarPy_spec", "SCoda.HeapTieB.pieceOk_wrapped", "SCoda.HeapTieB.pieceOk_empty"]),
 ]
@@ -60,7 +68,10 @@ RULE = ("originals (<=6 notes, 1-2 channels, key signatures, control / program c
         "bar routes) x derivation routes (Sequence.copy, split, sequences_split_bars with "
         "either re-quantisation setting, Bar.copy, Track.copy, Composition.copy) x histories of <=8 public operations on either "
         "side, a quarter of them with one side handed to the other through concatenate (D24d); copies of bars / tracks / compositions built directly from "
-        "plain data (attributes, name, program, both views of every bar against the data put in); non-trivial = history contains an in-place mutator "
+        "plain data (attributes, name, program, both views of every bar against the data put in); copy after mutation: the same bars built with "
+        "default_channel in {not passed, 0, 1, 3, 5, 15}, 0-2 public mutators on each bar in place (Sequence.set_channel, Sequence.transpose, "
+        "Bar.transpose; small intervals, octaves, wrapping intervals), then Bar / Track / Composition copies judged bar by bar against the "
+        "original bar's CURRENT content; non-trivial = history contains an in-place mutator "
         "(transpose, set_channel, scale, edit, quantise, cutoff)")
 ASSUMPTIONS = ["freshness typing rules are trusted as a description of Python aliasing: `<x>.copy()` is fresh provided every copy method in the "
                "route list returns a fresh value (checked for each), constructor calls with fresh/scalar arguments are fresh, reads of "
@@ -501,6 +512,70 @@ def o_copy_equal(inp):
     return fails
 
 
+def o_copy_after_mutation(inp):
+    """copy after mutation (audit round 4, D1 / D3): every bar is built from plain data WITH A default_channel (None = not passed), 0-2 public
+    mutators are applied to the bar in place (bar.sequence.set_channel / bar.sequence.transpose / Bar.transpose), the bars are put into a Track
+    / Composition where the level says so, the bar / track / composition is copied, and every copied bar is judged against what ITS ORIGINAL
+    SHOWS NOW (attributes; timed events with every message field, and duration, read through the original's own relative view before the copy is
+    taken) — never against the data it was built from, never through copy().  Taking the copy must not change what the originals show."""
+    from scoda.elements.bar import Bar
+    from scoda.elements.track import Track
+    from scoda.elements.composition import Composition
+    from protocol import KEYS
+    level = inp["level"]
+    built = []
+    try:
+        for tr in inp["tracks"]:
+            bars = []
+            for b in tr["bars"]:
+                kw = {} if b.get("dch") is None else {"default_channel": b["dch"]}
+                bar = Bar(P.seq_in_state([tuple(m) for m in b["rel"]], b.get("state", "rel")), b["num"], b["den"],
+                          None if b["key"] is None else KEYS[b["key"]], **kw)
+                for mut in b.get("muts", []):
+                    BM.apply_mut(bar, mut)
+                bars.append(bar)
+            built.append(bars)
+        containers = None
+        if level == "track":
+            containers = [Track(bars, tr["name"]) for bars, tr in zip(built, inp["tracks"])]
+        elif level == "composition":
+            containers = Composition([Track(bars, tr["name"]) for bars, tr in zip(built, inp["tracks"])])
+        before = [[BM.bar_state(b) for b in bars] for bars in built]
+    except Exception as e:
+        if type(e).__name__ in ("BarException", "TrackException"):
+            return [("~skip:construction-refused", "")]
+        return [("~skip:mutator-raises:" + type(e).__name__, "")]
+    try:
+        if level == "bar":
+            copies = [[b.copy() for b in bars] for bars in built]
+        elif level == "track":
+            copies = [t.copy().bars for t in containers]
+        else:
+            copies = [t.bars for t in containers.copy().tracks]
+    except Exception as e:
+        # which bars were already outside their capacity?  (facts for D45b)
+        over = [[ti, bi, st["content"][1], G.bar_len(b["num"], b["den"])] for ti, (tr, sts) in enumerate(zip(inp["tracks"], before))
+                for bi, (b, st) in enumerate(zip(tr["bars"], sts)) if st["content"][1] > G.bar_len(b["num"], b["den"])]
+        return [("copy-mut", U2.Detail(f"{level} copy after mutation raised {type(e).__name__}: {e}", raised=type(e).__name__, over=over))]
+    fails = []
+    if [len(x) for x in copies] != [len(x) for x in built]:
+        return [("copy-mut", f"{level} copy has {[len(x) for x in copies]} bars per track, the original {[len(x) for x in built]}")]
+    for ti, (bars, cps) in enumerate(zip(built, copies)):
+        for bi, (b, c) in enumerate(zip(bars, cps)):
+            spec = inp["tracks"][ti]["bars"][bi]
+            f = BM.judge_copy(f"{level} copy, bar {ti}/{bi} (default_channel={spec.get('dch')!r}, {spec.get('muts', [])})", before[ti][bi],
+                              BM.bar_state(b), c)
+            for cl, det in f:
+                if hasattr(det, "data"):
+                    det.data.update(bar=[ti, bi], cap=G.bar_len(spec["num"], spec["den"]))
+            fails.extend(f)
+            if c is b or c.sequence is b.sequence:
+                fails.append(("copy-mut", f"{level} copy: copied bar {ti}/{bi} is the original bar / shares its sequence object"))
+            if fails:
+                return fails
+    return fails
+
+
 def gen_bar(rng, num, den):
     """a relative list in normal form that fits a num/den bar: well-formed notes, at most one key signature, control changes, program changes
     of ONE program (Track refuses mixed ones), no time signature (the Bar sets it)"""
@@ -517,6 +592,9 @@ def gen_bar(rng, num, den):
     return G.abs_to_rel(a)
 
 
+D37B_WITNESS = {"level": "bar", "tracks": [{"name": None, "bars": [
+    {"rel": [G.pm(ON, 3, None, note=60, vel=64), G.pm(WAIT, 3, 24), G.pm(OFF, 3, None, note=60)], "num": 4, "den": 4, "key": None, "dch": 3,
+     "muts": [["set_channel", 0]]}]}]}
 D24D_EXAMPLE = {"init": ["rel", [G.pm(ON, 0, None, note=60, vel=64), G.pm(WAIT, 0, 12), G.pm(OFF, 0, None, note=60)]], "route": "copy",
                "ops": [["concatOther"], ["setChannel", 5]], "side": "derived", "cuts": [24], "both_fresh": True}
 
@@ -534,6 +612,26 @@ def observed_of(f):
 def setup(ctx):
     ctx.oracle("independent", o_independent)
     ctx.oracle("copy-equal", o_copy_equal)
+    ctx.oracle("copy-after-mutation", o_copy_after_mutation)
+
+    def _muts_of(f, names):
+        return any(m[0] in names for tr in f["input"].get("tracks", []) for b in tr["bars"] for m in b.get("muts", []))
+
+    def kf_d42b(f):
+        # D44 through a bar / track / composition copy: the judged bar's content read before the copy does not pair its notes per (channel, pitch)
+        return f["oracle"] == "copy-after-mutation" and f["clause"] == "copy-mut" and _muts_of(f, ("set_channel",)) and BM.is_merge_outcome(f)
+    ctx.kf_predicates["D44b"] = kf_d42b
+
+    def kf_d43b(f):
+        # D45 through a bar / track / composition copy: a transposition in the history, and the bar's own content read before the copy no longer
+        # lasts its capacity (longer: the copy raised BarException; shorter: same events, the copy padded back)
+        if not (f["oracle"] == "copy-after-mutation" and f["clause"] == "copy-mut" and _muts_of(f, ("transpose", "bar_transpose"))):
+            return False
+        d = U2.data_of(f)
+        if d.get("raised") == "BarException":
+            return bool(d.get("over"))
+        return "cap" in d and BM.is_requantised_outcome(d, d["cap"])
+    ctx.kf_predicates["D45b"] = kf_d43b
 
     def kf_d24d(f):
         # the history hands one side to the other as an argument of concatenate: the receiver then holds the argument's message OBJECTS, and a
@@ -567,6 +665,8 @@ def generate(ctx):
     rng = ctx.rng
     heap_correspondence(ctx)
     ctx.check("independent", D24D_EXAMPLE)      # the recorded instance of the known finding
+    for level in ("bar", "track", "composition"):
+        ctx.check("copy-after-mutation", dict(D37B_WITNESS, level=level))      # audit round 4, D1: built on channel 3, moved to channel 0, copied
     for i in range(ctx.n(200, 4000)):
         route = ROUTES[i % len(ROUTES)]
         a, notes = G.gen_wf_abs(rng, n_notes=rng.randint(1, 6), channels=rng.choice([(0,), (0,), (0, 1)]), max_tick=150, max_dur=60,
@@ -623,3 +723,11 @@ def generate(ctx):
         level = ("bar", "track", "composition")[i % 3]
         ctx.count("copy-equal:" + level)
         ctx.check("copy-equal", {"level": level, "tracks": tracks})
+        # copy after mutation (audit round 4, D1 / D3): the same containers, every bar built with a random default_channel and changed in place
+        # by 0-2 public mutators before the bar / track / composition is copied
+        mtracks = [{"name": tr["name"], "bars": [dict(b, dch=rng.choice([None, 0, 1, 3, 5, 15]), muts=BM.gen_muts(rng, (0,))) for b in tr["bars"]]}
+                   for tr in tracks]
+        ctx.count("copy-after-mutation:" + level)
+        if any(m[0] == "set_channel" for tr in mtracks for b in tr["bars"] for m in b["muts"]):
+            ctx.count("copy-after-mutation:with-set_channel")
+        ctx.check("copy-after-mutation", {"level": level, "tracks": mtracks})
